@@ -237,6 +237,14 @@ def _packers(ctx):
                     if isinstance(ret, int) and ret != need and bad is None:
                         bad = "carquet_bitpack_32 count %d width %d reports %d bytes, %d expected" % (n, w, ret, need)
     except (Budget, Stop) as ex:
+        # the path explored when the budget ran out is a feasible prefix: a stale read on it is a witness
+        st = stale_output_read(getattr(it, "acc", []))
+        if st:
+            ctx.bad("R4.skeleton", "pack-extent|%s:carquet_bitpack_32" % BP, P.where(fN.body),
+                    "the raw bit packers read no output byte before writing it",
+                    "width %s: output bytes [%d,%d) are read (`|=`) before they are written in the call: the packed bytes depend on the "
+                    "buffer's previous contents" % ((w,) + st))
+            return
         ctx.inconclusive("R4.skeleton", "pack-extent|%s:carquet_bitpack_32" % BP, P.where(fN.body), "skeleton execution of the packers", str(ex))
         return
     ctx.count("pack_skeleton_runs", runs)
